@@ -30,9 +30,12 @@ TResult ==
        [] sc.op = "timeout"  -> Cur.ok /\ Cur.text = res'.text
        [] sc.op \in {"sweep_codes", "sweep_pct", "sweep_timeout"} -> Cur.bad = 0
        [] sc.op = "grpcmsg_e2e" -> Cur.enc = PctEncode(sc.in) /\ Cur.dec = sc.in
-       [] sc.op = "deadline_e2e" -> IF sc.proto = "connect" THEN ConnectHeaderOK(sc.secs, Cur.chars, Cur.present, Cur.slack_ms)
-                                    ELSE GrpcHeaderOK(sc.secs, Cur.chars, Cur.present, Cur.slack_ms)
-       [] sc.op = "nodeadline_e2e" -> ~Cur.present
+       \* (the header is a function of this call's deadline alone: sc.prev, an earlier use of the same Request, is
+       \*  not mentioned; one value at most, and never the other protocol's header)
+       [] sc.op = "deadline_e2e" -> /\ IF sc.proto = "connect" THEN ConnectHeaderOK(sc.secs, Cur.chars, Cur.present, Cur.slack_ms)
+                                       ELSE GrpcHeaderOK(sc.secs, Cur.chars, Cur.present, Cur.slack_ms)
+                                    /\ Cur.count = IF Cur.present THEN 1 ELSE 0
+       [] sc.op = "nodeadline_e2e" -> ~Cur.present /\ Cur.count = 0
        [] OTHER -> FALSE
 
 Normal == TReset \/ (TResult /\ Consume /\ UNCHANGED failed)
